@@ -13,7 +13,7 @@ import (
 
 func main() {
 	probe.Init()
-	for _, cs := range probe.Plan() {
+	for cs, more := probe.Next(); more; cs, more = probe.Next() {
 		custom, sc := cs.Custom, cs.Sc
 		probe.SetCase(cs)
 		for _, which := range []string{"global", "routing"} {
